@@ -1,5 +1,5 @@
 """C05 -- scheduler core (work in progress: metadata filled in below)."""
-from props.common import other_tasks, contract_tasks, lemma_tasks, TRUSTED_CORE
+from props.common import other_tasks, contract_tasks, lemma_tasks, TRUSTED_CORE, SCHED_ASSUMPTIONS
 
 PROPERTY = "C05"
 
@@ -7,15 +7,16 @@ PROPERTY = "C05"
 def tasks(tier):
     return ((contract_tasks("contracts.scheduler", "C05", tier=tier) + contract_tasks("contracts.sim_process", "C05", tier=tier)
             + contract_tasks("contracts.progress", "C05", tier=tier) + lemma_tasks("contracts.progress", "C05"))
+            + contract_tasks("contracts.run_prelude", "C05", tier=tier)
             + other_tasks("contracts.closure", "C05", "bounded"))
 
 
 TRUSTED_BASE = TRUSTED_CORE
-ASSUMPTIONS = []
-NOT_COVERED = []
-LEVEL_TEXT = "Safety half: every internal-error site on the run path (cannot progress backwards, already progressed, length/None errors, empty heap) is an obligation 'unreachable' under the invariant; deadlock freedom/termination (liveness) is NOT decided."
+ASSUMPTIONS = SCHED_ASSUMPTIONS
+NOT_COVERED = ['termination / deadlock freedom as such (liveness over whole histories) is NOT decided: no function contract expresses it. Decided instead: every internal-error site is unreachable, and the one wait whose condition could be unsatisfiable (own progress beyond until) is excluded by an obligation at the await (this found F16)', 'scenarios in the known finding F6 (K_mixed delays on two paths) die in the closure before any step: recorded, replayed on every run']
+LEVEL_TEXT = "Safety half: every internal-error site on the run path (cannot progress backwards, already progressed, length / None errors, empty heap, incomparable delays in the scheduler functions) is an obligation 'unreachable' under the invariant; the awaited progress in next_step_settled is never beyond until; scheduler.run starts every simulator exactly once. Deadlock freedom / termination (liveness) is NOT decided."
 DESIGN_REF = "DESIGN.md section 8 (C05)"
-LEVEL_NOTE = 'Trusted: pyvc encoder (Python semantics of DESIGN 3.4), the rely/guarantee meta-theorem for cooperative asyncio tasks (DESIGN 6, not mechanised), assumed contracts of asyncio/heapq, time/delay algebra axioms (each with provenance to a C08 obligation), static connection-table facts static_ok/trig_static (assumed here; established by the scenario.py contracts where built), non-real-time mode, z3/cvc5.'
-TECHNIQUE = "contract-based deductive verification (AST->z3 VCs on the real functions, global invariant, rely/guarantee at awaits)"
+LEVEL_NOTE = 'Proved for any number of simulators, any topology, any reply values and every interleaving, under the listed assumptions (evidence: assumptions, coverage.trusted_base). Trusted: pyvc encoder, the rely/guarantee meta-theorem, assumed contracts of asyncio/heapq, the time/delay algebra axioms (C08 provenance), static connection-table facts, z3/cvc5. Known finding F6; fixed through this check: F3 (6862ef0), F13 (d15a998), F16 (520221d).'
+TECHNIQUE = 'contract-based deductive verification (AST->z3 VCs on the real functions, global invariant, rely/guarantee at awaits)'
 CLAIMED = True
-NA_REASON = "check under construction in this round"
+NA_REASON = ""
